@@ -143,6 +143,17 @@ Section C12.
            = Ret (RScalar (match pos p (span_labels (c_span st)) with Some q => nth q (s_data sr) c | None => c end)).
   Proof. exact (reindex_then_label_get pd_get_loc pd_contains cast st st' new_span new_id fv strict fills fresh lc'). Qed.
 
+  (* reindexing to the same periods in the same order changes no value, dtype or name of any variable, whatever the fill arguments *)
+  Theorem C12_reindex_same_labels_identity (st st' : cst) (new_span : span) (new_id : Z) (fv : pyval) (strict : option bool)
+          (fills : list (string * pyval)) (fresh : Z) :
+    wf st ->
+    old_span_ok pd_get_loc pd_contains (c_span st) (span_labels new_span) ->
+    span_labels new_span = span_labels (c_span st) -> NoDup (span_labels (c_span st)) ->
+    reindex_M pd_get_loc pd_contains cast st new_span new_id fv strict fills fresh = Ret st' ->
+    map (fun kv => (fst kv, (s_dtype (snd kv), s_data (snd kv)))) (c_vars st')
+    = map (fun kv => (fst kv, (s_dtype (snd kv), s_data (snd kv)))) (c_vars st).
+  Proof. exact (reindex_same_labels_identity pd_get_loc pd_contains cast st st' new_span new_id fv strict fills fresh). Qed.
+
   (* ---------- totality: on a well-formed object with an old span of the supported kinds, nothing but the strict test and
      the conversion of a fill value to its variable's dtype can make reindex fail ---------- *)
   Theorem C12_reindex_succeeds (st : cst) (new_span : span) (new_id : Z) (fv : pyval) (strict : option bool)
@@ -223,6 +234,7 @@ Print Assumptions C12_known_fills_strict_irrelevant.
 Print Assumptions C12_pandas_loop_frame.
 Print Assumptions C12_model_reindex_values.
 Print Assumptions C12_reindex_succeeds.
+Print Assumptions C12_reindex_same_labels_identity.
 Print Assumptions C12_reindex_then_label_get.
 Print Assumptions C12_pandas_loop_var.
 Print Assumptions C12_pandas_loop_noop.
